@@ -1,5 +1,6 @@
 SPECIFICATION Spec
 CONSTANTS N = 2
+ WithInline = TRUE
  Transitive = TRUE
 INVARIANTS FiniteSize Emit
 CHECK_DEADLOCK FALSE
